@@ -1,0 +1,25 @@
+//go:build verif
+// +build verif
+
+package ige
+
+import "math/big"
+
+// VerifIGE runs the package-internal IGE block loop with caller-chosen key and iv
+// (verification hook, build tag verif).
+func VerifIGE(encrypt bool, data, out, key, iv []byte) error {
+	if encrypt {
+		return doAES256IGEencrypt(data, out, key, iv)
+	}
+	return doAES256IGEdecrypt(data, out, key, iv)
+}
+
+// VerifTempKeys exposes the key-exchange temporary key derivation (verification hook).
+func VerifTempKeys(nonceSecond, nonceServer *big.Int) (key, iv []byte) {
+	return generateTempKeys(nonceSecond, nonceServer)
+}
+
+// VerifMsgKeys exposes the message key derivation (verification hook).
+func VerifMsgKeys(msgKey, authKey []byte, decode bool) (key, iv []byte) {
+	return generateAESIGE(msgKey, authKey, decode)
+}
